@@ -476,11 +476,14 @@ func (fr *fRun) runCase(c fCase, gen ev) {
 	default:
 		panic("unknown kind " + c.Kind)
 	}
-	// every wrapper exists before any of them is used
+	// every wrapper exists before any of them is used.  Upload sessions belong to the backend,
+	// not to the wrapper they were started through: the wrappers' worlds share one table of
+	// session ids and writers (a session name is one session whichever wrapper names it)
+	writers, ids := map[string]BlobWriterT{}, map[string]string{}
 	for _, n := range nodes {
 		n.buf = &bytes.Buffer{}
 		n.ri = &reiter{Interface: n.value, cat: fr.cat}
-		n.w = &world{cat: fr.cat, top: n.ri, writers: map[string]BlobWriterT{}, ids: map[string]string{}, out: json.NewEncoder(n.buf)}
+		n.w = &world{cat: fr.cat, top: n.ri, writers: writers, ids: ids, out: json.NewEncoder(n.buf)}
 	}
 	var bbuf bytes.Buffer
 	wb := &world{cat: fr.back, top: mem, writers: map[string]BlobWriterT{}, ids: map[string]string{}, out: json.NewEncoder(&bbuf)}
